@@ -679,3 +679,65 @@ def consistency_group(ctx, rule, include_memo=True, frame=True):
                      {"group": gnames,
                       "witness": "add two records, call this entry point, search: stale positions / stale ranking"},
                      kind="S")
+
+
+# ------------------------------------------------------------------ diagnostic (write-only) state
+
+ARITH_CALLEES = ("wrapping_add", "wrapping_sub", "saturating_add", "saturating_sub", "checked_add", "checked_sub",
+                 "overflowing_add", "Add::add", "AddAssign::add_assign", "Option::unwrap_or", "Option::unwrap", "cmp::max", "cmp::min",
+                 "Clone::clone", "Cell::get", "Cell::take", "RefCell::borrow", "RefCell::borrow_mut", "Deref::deref", "DerefMut::deref_mut")
+WRITE_BACK_CALLEES = ("Cell::set", "Cell::replace", "Cell::swap", "RefCell::replace", "Cell::update")
+
+
+def value_never_leaves(ctx, bodies, is_state):
+    """True iff, in the given bodies, the content of a piece of long-lived state is only ever (re)written, or read to compute
+    the value written back into the same state (counters: `x += 1`, `c.set(c.get() + 1)`, `stats.hits = stats.hits.wrapping_add(n)`).
+    `is_state(expr)` recognises a (reference-stripped) symbolic expression that denotes the state.  Such state cannot
+    influence any result computed by these bodies: it is diagnostic.  Returns (ok, first leak description)."""
+    for b in bodies:
+        if (b.impl_trait or "").startswith(("std::fmt::Debug", "std::fmt::Display", "core::fmt::Debug", "core::fmt::Display")):
+            continue            # formatting for humans: feeds no result
+        sy = ctx.sym(b)
+
+        def mentions(e):
+            return any(isinstance(x, tuple) and x and is_state(S.strip_refs(x)) for x in S.walk(e)) or is_state(S.strip_refs(e))
+        for bi, si, st in b.iter_stmts():
+            if st["k"] != "assign" or b.blocks[bi]["cleanup"]:
+                continue
+            try:
+                e = sy.rvalue(st["rv"])
+            except Exception:
+                continue
+            if not mentions(e):
+                continue
+            pl = st["place"]
+            if not pl["p"]:
+                if pl["l"] == 0:
+                    return False, "%s returns a value derived from it" % b.id
+                continue            # a temporary: its uses are seen through symbolic resolution
+            dest = S.strip_refs(sy.place(pl))
+            if mentions(dest) or is_state(dest):
+                continue            # written back into the same state
+            return False, "%s stores a value derived from it in %s" % (b.id, S.show(dest, b)[:60])
+        for bi, t in b.iter_terms():
+            if t["k"] == "switch":
+                if mentions(sy.operand(t["discr"])):
+                    return False, "%s branches on it" % b.id
+            elif t["k"] == "call":
+                args = [sy.operand(a) for a in t["args"]]
+                hit = [i for i, a in enumerate(args) if mentions(a)]
+                if not hit:
+                    continue
+                cn = t.get("cn") or ""
+                if cn.endswith(ARITH_CALLEES):
+                    if t["dest"]["l"] == 0 and not t["dest"]["p"]:
+                        return False, "%s returns a value derived from it" % b.id
+                    continue
+                if cn.endswith(WRITE_BACK_CALLEES) and hit and (hit[0] == 0):
+                    continue        # Cell::set(&state, f(state))
+                if cn.endswith(("LocalKey::with", "LocalKey::try_with")):
+                    continue        # the closure body is one of `bodies` (or not on the path)
+                if cn.endswith(("fmt::Arguments::new", "core::fmt::rt::Argument::new_debug", "core::fmt::rt::Argument::new_display")):
+                    continue
+                return False, "%s passes it to %s" % (b.id, cn.rsplit("::", 2)[-2] + "::" + cn.rsplit("::", 1)[-1] if "::" in cn else cn)
+    return True, None
